@@ -742,6 +742,34 @@ Qed.
 
 End Probe.
 
+(** A concrete probe, to tie [leaves_lr] to a run:
+    [ফাংশন p(x) { দেখাও x; ফেরত x; }] and the expression
+    [[p(1) + p(2), -(p(3)), {a: p(4)}][p(0) * p(5)]]. *)
+Definition pr_libm (_ : N) (x _ : f64) : f64 := x.
+Definition pr_clock : f64 := f_of_Z 0.
+Definition pr_sched (_ : N) (l : list (list N * value)) : list (list N * value) := l.
+Definition pr_p : list N := [112].
+Definition pr_x : list N := [120].
+Definition probe (k : Z) : expr := ECall (EId pr_p 1) 1 [ELit (LitNum (f_of_Z k)) 1].
+Definition probe_fun : stmt :=
+  SFun pr_p [pr_x] [SPrint (EId pr_x 1); SReturn 1 (Some (EId pr_x 1))].
+Definition probe_expr : expr :=
+  EIndex (EArray [EBinary TPLUS (probe 1) (probe 2) 1;
+                  EUnary TMINUS (EGroup (probe 3) 1) 1;
+                  EObject [([97], probe 4)]])
+         (EBinary TSTAR (probe 0) (probe 5) 1) 1.
+
+Example probe_leaves : leaves_lr probe_expr = map probe [1; 2; 3; 4; 0; 5]%Z.
+Proof. reflexivity. Qed.
+
+Example probe_run :
+  match run_stmts pr_libm pr_clock pr_sched 60 false [probe_fun; SExpr probe_expr] (init_state []) with
+  | Ok _ s => Some (rev (out s))
+  | _ => None
+  end
+  = Some (map (fun k => EvPrint [48 + k]) [1; 2; 3; 4; 0; 5]).
+Proof. vm_compute. reflexivity. Qed.
+
 Print Assumptions truthy_spec.
 Print Assumptions or_short.
 Print Assumptions binary_left_fails.
